@@ -5,6 +5,7 @@ import copy
 import sys
 
 from sim import fakes, wire
+from sim import graphs as G
 from sim import jobs as J
 from sim import simtasks
 from sim.kernel import Kernel, SimKilled, SimProc, SpinDetected
@@ -18,6 +19,10 @@ CLEAN_DEADLINE_S = 200      # C05 clause 3: everything gone within this much aft
 def gen_plan(rng, opts=None):
     o = dict(nmax=8, hmax=3, wmax=2, max_out=3, lossy=False, jitter=True, faults=None, gpu=True)
     o.update(opts or {})
+    if o.get("graph"):
+        gp = G.gen_graph_plan(rng, o.get("graph_opts"))
+        lat_hi = rng.choice([50_000, 50_000, 2_000_000, 50_000_000])
+        return dict(graph=gp, cluster=dict(hosts=rng.randint(1, 3), wph=rng.randint(1, 2), gpus={}), net=dict(lat_lo=50_000, lat_hi=lat_hi, drop=0, dup=0), faults=[])
     job = J.gen_job_plan(rng, nmax=o["nmax"], max_out=o["max_out"], ncomp_max=3, gpu=o["gpu"], p_empty=0.02)
     for t in job["tasks"]:
         t["work_ms"] = rng.choice([0, 0, 0, 1, 20, 300])
@@ -188,9 +193,17 @@ def run(plan, ch, want_log=False):
     from cascade.executor.bridge import Bridge
     from cascade.executor.executor import Executor
     from cascade.scheduler.graph import precompute
-    jp, cp, net = plan["job"], plan["cluster"], plan["net"]
+    cp, net = plan["cluster"], plan["net"]
     faults = plan.get("faults") or []
-    job = J.build_job(jp)
+    ginfo = None
+    if "graph" in plan:
+        simtasks.reset()
+        job, ref, ginfo = G.materialise(plan["graph"])
+        jp = dict(tasks=[])
+    else:
+        jp = plan["job"]
+        job = J.build_job(jp)
+        ref = J.refeval_plan(jp)
     pre = precompute(job)
     K = Kernel(ch, max_steps=400_000, max_time_ns=3600 * 10**9)
     if want_log:
@@ -205,6 +218,8 @@ def run(plan, ch, want_log=False):
     task_faults = {f["task"]: f for f in faults if f["kind"].startswith("task_")}
     kills = [dict(f) for f in faults if f["kind"] == "kill"]   # copies: the plan itself is never mutated
     work = {t["name"]: t.get("work_ms", 0) for t in jp["tasks"]}
+    if ginfo is not None:
+        work = {}
     fstate = dict(last_fault=None, fired=[])
 
     def fault_fired(kind, what):
@@ -307,16 +322,15 @@ def run(plan, ch, want_log=False):
     finally:
         mon.undo()
         simtasks.reset()
-    return _judge(plan, jp, job, K, mon, result, fstate, end, want_log)
+    return _judge(plan, jp, job, K, mon, result, fstate, end, want_log, ref, ginfo)
 
 
-def _judge(plan, jp, job, K, mon, result, fstate, end, want_log):
+def _judge(plan, jp, job, K, mon, result, fstate, end, want_log, ref, ginfo):
     net = plan["net"]
     lossy = bool(net.get("drop") or net.get("dup") or (net.get("plan") or {}).get("drop") or (net.get("plan") or {}).get("dup"))
     fired = fstate["fired"]
     faulted = bool(fired)
     viol = list(mon.viol)
-    ref = J.refeval_plan(jp)
     ntasks = len(job.tasks)
     verdict = "returned" if "outputs" in result else ("raised" if "error" in result else "hang")
     t_end = result.get("t_end")
@@ -332,8 +346,23 @@ def _judge(plan, jp, job, K, mon, result, fstate, end, want_log):
             v = outs.get(d)
             if v is None:
                 wrong.append(("missing", repr(d)))
-            elif v != ref[(d.task, d.output)]:
+            elif (d.task, d.output) in ref and v != ref[(d.task, d.output)]:
                 wrong.append(("value", repr(d), v, ref[(d.task, d.output)]))
+    if ginfo is not None:
+        gsig = dict(node_unsorted=bool(ginfo["unsorted_declared"]), node_dup_arg=bool(ginfo["dup_input_arg"]), max_outputs=ginfo["max_outputs"])
+        if wrong:
+            viol.append(("C10", "value_differs_from_graph_evaluation", wrong[:3], gsig))
+        for cls, detail in ginfo["structural"]:
+            viol.append(("C10", cls, detail, gsig))
+        if ginfo["expect_failure"] and verdict == "returned":
+            fewer = any("yielded" in w and int(w.split("declared ")[1].split(",")[0]) > int(w.split("yielded ")[1]) for w in ginfo["failed"].values())
+            if fewer or net["lat_hi"] == net["lat_lo"]:
+                viol.append(("C10", "count_mismatch_not_reported", ginfo["failed"], gsig))
+        if ginfo["expect_failure"] and verdict == "raised":
+            K.probe("count_mismatch_reported_as_task_failure")
+        if not ginfo["expect_failure"] and verdict != "returned":
+            viol.append(("C10", "graph_run_did_not_return", dict(verdict=verdict, error=result.get("error"), tf=mon.task_failures[:2]), gsig))
+        wrong = []
     if wrong:
         viol.append(("C05" if faulted else "C01", "wrong_value", wrong[:3], sig_base))
 
@@ -341,7 +370,7 @@ def _judge(plan, jp, job, K, mon, result, fstate, end, want_log):
     multi = {t: n for t, n in mon.started.items() if n > 1}
     if multi:
         viol.append(("C02", "task_executed_twice", multi, sig_base))
-    if verdict == "returned" and not faulted:
+    if verdict == "returned" and not faulted and ginfo is None:
         never = sorted(set(job.tasks) - set(mon.started))
         if never:
             viol.append(("C03", "returned_with_tasks_never_executed", never, sig_base))
@@ -353,7 +382,10 @@ def _judge(plan, jp, job, K, mon, result, fstate, end, want_log):
         td = mon.teardown.get(host, mon.teardown.get("ctrl"))
         helper_crashes.append((name, err[:200], td is not None))
     early_crashes = [c for c in helper_crashes if not c[2] and c[0] != "ctrl"]
-    if not faulted:
+    if ginfo is not None and ginfo["expect_failure"]:
+        if verdict == "hang":
+            viol.append(("C10", "count_mismatch_not_reported", dict(hang=end, failed=ginfo["failed"]), {}))
+    elif not faulted:
         if verdict == "hang" or result.get("spin"):
             if lossy and _lost_for_good(K, mon):
                 viol.append(("C06", "lost_message_never_retried_nor_reported", _lost_for_good(K, mon)[:3], sig_base))
@@ -399,7 +431,7 @@ def _judge(plan, jp, job, K, mon, result, fstate, end, want_log):
     fault_during_work = faulted and len(mon.started) < ntasks or (faulted and verdict != "returned")
     nontrivial = dict(C01=ntasks >= 2 and bool(job.ext_outputs) and cross, C02=ntasks >= 2 and cross, C03=ntasks >= 2,
                       C04=ntasks >= 2 and cross, C05=bool(fault_during_work) if faulted else False,
-                      C06=K.net.stats["dropped"] + K.net.stats["dup"] > 0, C10=True)
+                      C06=K.net.stats["dropped"] + K.net.stats["dup"] > 0, C10=ginfo is not None and (ginfo["max_outputs"] > 1 or bool(job.edges)))
     res = dict(harness=NAME, viol=[dict(prop=p, cls=c, detail=repr(d)[:500], sig=s) for p, c, d, s in viol], probes=dict(K.probes), fired=dict(K.fired),
                digest=K.digest(), steps=K.steps, simtime=(K.now - K.t0) / 1e9, stats=stats, nontrivial=nontrivial,
                end=f"{verdict}/{end}", verdict=verdict,
@@ -450,6 +482,16 @@ def expand(plan, res, rng, cap, kinds):
 
 
 def shrink_candidates(plan):
+    if "graph" in plan:
+        for gp in G.shrink_graph_candidates(plan["graph"]):
+            c = copy.deepcopy(plan)
+            c["graph"] = gp
+            yield c
+        for cp in J.shrink_cluster_candidates(plan["cluster"]):
+            c = copy.deepcopy(plan)
+            c["cluster"] = cp
+            yield c
+        return
     for jp in J.shrink_job_candidates(plan["job"]):
         c = copy.deepcopy(plan)
         c["job"] = jp
@@ -482,5 +524,7 @@ def shrink_candidates(plan):
 
 
 def sample(plan):
+    if "graph" in plan:
+        return plan
     return dict(tasks=[(t["name"], t["nout"], [tuple(e) for e in t["inputs"]]) for t in plan["job"]["tasks"]][:8], ext=plan["job"]["ext"],
                 cluster=plan["cluster"], net=plan["net"], faults=plan.get("faults"))
